@@ -98,7 +98,7 @@ def run_case(rs, ctx):
     if name == "partial_fit:fewer_rows_than_clusters_first_call":
         pos = "before_fit"
     sh = gen.Shadow(cfg, nf)
-    if name.endswith("before_fit"):
+    if name.endswith("before_fit") or name.endswith("first_call"):
         pos = "before_fit"
     elif pos == "before_fit" and name.split(":")[0] in ("predict", "predict_expectations", "partial_fit") and "before_fit" not in name:
         pos = "after_fit" if name.split(":")[0] != "partial_fit" or layer == "inside" else pos
@@ -150,7 +150,9 @@ def run_case(rs, ctx):
         cont = gen.gen_continuation(rs, cfg, sh)
     else:
         sh2 = copy.deepcopy(sh)
-        cont = gen.gen_ops(rs, cfg, sh2, 1, ["fit"], train_rows=(5, 12)) + gen.gen_continuation(rs, cfg, sh2)
+        # a never-fitted bandit may be trained by fit or - equally legal - by a first partial_fit
+        cont = gen.gen_ops(rs, cfg, sh2, 1, [gen.pick(rs, ["fit", "partial_fit"])], train_rows=(5, 12)) + \
+            gen.gen_continuation(rs, cfg, sh2)
     wit["continuation"] = cont
     if name.endswith("wrong_feature_count"):
         # a shape error from inside *prediction* is not among the rejections the property lists; prediction may advance
